@@ -27,7 +27,7 @@ type inputRec struct {
 	Kind string `json:"kind"` // u8,u16,u32,u64,bool,choose,dyad
 	t    *Term
 	ts   []*Term // a block of byte inputs (verifBytes); flattened by vector()
-	V    uint64 `json:"v"`
+	V    uint64  `json:"v"`
 }
 
 type Finding struct {
@@ -98,52 +98,54 @@ type Exec struct {
 	cpos     int
 
 	// stats
-	Paths       int
-	Instrs      int64
-	CacheHits   int
-	ModelHits   int
-	Obligations int
-	Discharged  int
-	ObUnknown   int
-	BrUnknown   int
-	Findings    map[string]*Finding
-	Reached     map[string]int
-	funcsSeen   map[*ssa.Function]bool
-	Samples     []string
-	Assumes     map[string]bool
-	Stubs       map[string]bool
-	MaxUnwind   int
-	SpecOK      int
-	SpecFail    int
-	deadline    time.Time
-	maxPaths    int
-	maxInstr    int64
-	Exhausted   string // non-empty if a budget stopped exploration
-	harness     string
-	verbose     bool
-	firstChoice int
-	noMerge     bool
+	Paths         int
+	Instrs        int64
+	CacheHits     int
+	ModelHits     int
+	Obligations   int
+	Discharged    int
+	ObUnknown     int
+	BrUnknown     int
+	Findings      map[string]*Finding
+	Reached       map[string]int
+	funcsSeen     map[*ssa.Function]bool
+	Samples       []string
+	Assumes       map[string]bool
+	Stubs         map[string]bool
+	MaxUnwind     int
+	cutBound      int
+	Cuts          int
+	SpecOK        int
+	SpecFail      int
+	deadline      time.Time
+	maxPaths      int
+	maxInstr      int64
+	Exhausted     string // non-empty if a budget stopped exploration
+	harness       string
+	verbose       bool
+	firstChoice   int
+	noMerge       bool
 	defaultUnwind int
-	dirty       map[*Object]bool
-	dirtyMaps   map[*MapV]bool
-	aliases     map[*ArrayV]*Object
-	forced      map[string]int
-	forcedEx    map[string]string
-	curSite     string
-	bigMapOrder int
-	forkSites   map[string]int
-	pendingUniq []uniqFact
-	initPhase   bool
-	stack       []*ssa.Function
-	pcVars      []*Term
-	pcVarSet    map[*Term]bool
-	params      map[string]int
-	wantSamples int
-	PathSamples []PathSample
-	forcedPath  map[string]int
-	pathReached []string
-	uniqTried   map[*Term]bool
-	Uniq        int
+	dirty         map[*Object]bool
+	dirtyMaps     map[*MapV]bool
+	aliases       map[*ArrayV]*Object
+	forced        map[string]int
+	forcedEx      map[string]string
+	curSite       string
+	bigMapOrder   int
+	forkSites     map[string]int
+	pendingUniq   []uniqFact
+	initPhase     bool
+	stack         []*ssa.Function
+	pcVars        []*Term
+	pcVarSet      map[*Term]bool
+	params        map[string]int
+	wantSamples   int
+	PathSamples   []PathSample
+	forcedPath    map[string]int
+	pathReached   []string
+	uniqTried     map[*Term]bool
+	Uniq          int
 }
 
 func NewExec(prog *ssa.Program) *Exec {
@@ -1057,6 +1059,7 @@ func (e *Exec) resetPath() {
 	e.mapOrder = false
 	e.allocBytes = 0
 	e.cpos = 0
+	e.cutBound = 0
 	e.unwind = e.defaultUnwind
 	if e.unwind == 0 {
 		e.unwind = 100000
@@ -1090,6 +1093,9 @@ func (e *Exec) runPath(h *ssa.Function) (end string) {
 			switch x := r.(type) {
 			case pathEnd:
 				end = x.reason
+				if strings.HasPrefix(x.reason, "CUT") {
+					e.Cuts++
+				}
 				if strings.HasPrefix(x.reason, "UNWIND") || x.reason == "INSTR-BUDGET" {
 					if e.s == nil || e.s.Check() == "sat" {
 						e.record("unwind", x.reason, "")
